@@ -536,7 +536,7 @@ func tbGenTR(c *Ctx, nros int) *tbTR {
 }
 
 // tbGenState: a random joint state for the one-step stream (states the walks rarely reach included)
-func tbGenState(c *Ctx) tbJS {
+func tbGenState(c *Ctx) (tbJS, bool) {
 	n := 1 + c.Rng.Intn(2)
 	js := tbJS{}
 	var w0 rsWorld
@@ -581,7 +581,45 @@ func tbGenState(c *Ctx) tbJS {
 		g := genTRSM(c)
 		js.Net, js.Mem = g.Net, g.Mem
 	}
-	return js
+	focus := false
+	if c.Rng.Intn(3) == 0 {
+		focus = true
+		// focused stream: rollout 0 stands at one of the two places of the protocol (ready to join / ready to let go) in
+		// front of a TrafficRouting in any phase, with any set of holders
+		e := &js.Ros[0]
+		e.Bound = true
+		ro := &e.W.Ro
+		ro.Phase, ro.Deleting, ro.Term, ro.HasTraffic, ro.Disabled = "Progressing", false, "none", false, false
+		for k := range ro.Steps {
+			ro.Steps[k].Weight = nil
+		}
+		if e.W.WL == nil {
+			e.W.WL = &rsWL{CanaryRev: "v2", StableRev: "v1", Replicas: 5, Generation: 2, PodTemplateHash: "v2", InProgressAnno: true}
+		}
+		e.W.WL.Consistent = true
+		if c.Rng.Intn(2) == 0 {
+			ro.Reason, ro.CondAge = "initializing", pickS(c, "elapsed", "elapsed", "elapsed", "fresh")
+		} else {
+			ro.Reason = pickS(c, "finalising", "cancelling")
+			if c.Rng.Intn(4) == 0 {
+				ro.Phase, ro.Reason, ro.Deleting, ro.Term = "Terminating", "inRolling", true, "inTerminating"
+			}
+		}
+		if js.TR == nil || c.Rng.Intn(3) != 0 {
+			js.TR = tbGenTR(c, len(js.Ros))
+		}
+		js.TR.Phase = pickS(c, "", "Initial", "Healthy", "Healthy", "Progressing", "Progressing", "Finalizing", "Finalizing", "Terminating")
+		if js.TR.Phase == "Terminating" {
+			js.TR.Deleting = c.Rng.Intn(4) != 0
+		}
+		if js.TR.Deleting && !js.TR.HasFinalizer && len(js.TR.Holders) == 0 {
+			js.TR.HasFinalizer = true
+		}
+	}
+	if js.TR != nil && js.TR.Deleting && c.Rng.Intn(3) == 0 {
+		js.Mem.RestoreService = "fresh" // a clean-up that is waiting for its first grace period
+	}
+	return js, focus
 }
 
 func tbFault(c *Ctx) string {
@@ -835,10 +873,12 @@ func runTRBind(c *Ctx) {
 	budget := c.N
 	for c.Count < budget {
 		// one-step stream
-		for k := 0; k < 40 && c.Count < budget; k++ {
-			js := tbGenState(c)
+		for k := 0; k < 100 && c.Count < budget; k++ {
+			js, focus := tbGenState(c)
 			lab := tbLabel{K: "ro", I: c.Rng.Intn(len(js.Ros)), F: tbFault(c)}
-			if c.Rng.Intn(3) == 0 {
+			if focus && c.Rng.Intn(4) != 0 {
+				lab.I = 0
+			} else if c.Rng.Intn(3) == 0 {
 				lab = tbLabel{K: "tr"}
 			} else if c.Rng.Intn(12) == 0 {
 				lab = tbLabel{K: pickS(c, "deleteTR", "deleteRo", "tick", "crash"), I: 0}
